@@ -168,6 +168,12 @@ class WriteBack(Harness):
             if name == "vcf":
                 for p in (["all", "fixed", "tail"] if tier == "quick" else ["all", "fixed", "rev", "tail", "mask", "list", "cat"]):
                     out.append(dict(f, file=name, prog=p, replace="position"))
+            if name in ("vcf", "sam"):
+                # histories on one parent table: a write with a replaced column first, then an unmodified selection / the same replaced write
+                # again / the untouched source (the first write must leave nothing behind in the shared buffer)
+                for p1, p2, r2 in (("all", "fixed", None), ("all", "all", "position"), ("tail", "all", None), ("all", "rev", None)):
+                    out.append(dict(f, file=name, prog=p1, replace="position", then=dict(prog=p2, replace=r2)))
+                out.append(dict(f, file=name, prog="all", replace="position", then_source=True))
             if name in ("sam", "sam_crlf"):
                 # a replaced column on selections that are not a prefix of the file (the other cells, incl. the optional tags, keep their text)
                 for p in (["fixed", "rev", "tail"] if tier == "quick" else ["fixed", "rev", "tail", "mask", "list", "cat"]):
